@@ -356,6 +356,55 @@ fn stage<T>(f: impl FnOnce() -> T) -> Result<T, ()> {
     std::panic::catch_unwind(std::panic::AssertUnwindSafe(f)).map_err(drop)
 }
 
+fn rt_answer(text: &str) -> String {
+    match parse_text(text) {
+        Ok(m) => {
+            let r = match m.try_resolve() {
+                Ok(r) => dump_model(&r),
+                Err(e) => format!("err:{}", resolve_err_class(&e)),
+            };
+            format!("ok {} {}", dump_model(&m), r)
+        }
+        Err(e) => format!("err {}", parse_err_class(&e)),
+    }
+}
+
+/// the text with a comment behind blanks outside of `"…"` / `'…'` literals (every blank for variant 0,
+/// every second / third one else), cycling through the comment forms of X.680 12.6
+fn with_comments(text: &str, variant: usize) -> String {
+    // (not among them: `--e--` closed on the same line — the tokenizer reads a line comment up to the end of
+    //  the line, the property's layouts end line comments with a line break)
+    const FORMS: [&str; 7] = [
+        "/** c **/",
+        "-- d\n",
+        "/****/",
+        "/* a /* n */ b */",
+        "/* \"q */",
+        "/*\n*/",
+        "/* -- */",
+    ];
+    let mut out = String::with_capacity(text.len() * 3);
+    let mut open: Option<char> = None;
+    let mut blanks = 0usize;
+    for c in text.chars() {
+        out.push(c);
+        match open {
+            Some(d) if c == d => open = None,
+            Some(_) => {}
+            None if c == '"' || c == '\'' => open = Some(c),
+            None if c == ' ' || c == '\n' => {
+                blanks += 1;
+                if blanks % (variant + 1) == 0 {
+                    out.push_str(FORMS[(blanks / (variant + 1) + variant * 3) % FORMS.len()]);
+                    out.push(' ');
+                }
+            }
+            None => {}
+        }
+    }
+    out
+}
+
 pub fn handle(args: &[&str]) -> Option<String> {
     Some(match args {
         ["mod", h] => {
@@ -367,16 +416,19 @@ pub fn handle(args: &[&str]) -> Option<String> {
         }
         ["rt", h, ..] => {
             let text = text_of(h)?;
-            match parse_text(&text) {
-                Ok(m) => {
-                    let r = match m.try_resolve() {
-                        Ok(r) => dump_model(&r),
-                        Err(e) => format!("err:{}", resolve_err_class(&e)),
-                    };
-                    format!("ok {} {}", dump_model(&m), r)
+            let plain = rt_answer(&text);
+            // comments are no part of the module: the same text with comments of every form between its
+            // items has to give the same answer
+            for variant in 0..3 {
+                let commented = rt_answer(&with_comments(&text, variant));
+                if commented != plain {
+                    return Some(format!(
+                        "comment-differs [{}] with comments between the items (variant {}) instead of [{}]",
+                        commented, variant, plain
+                    ));
                 }
-                Err(e) => format!("err {}", parse_err_class(&e)),
             }
+            plain
         }
         ["fuzz", h] => {
             let text = text_of(h)?;
